@@ -21,7 +21,13 @@ import (
 // tokLine is one TLC-exported token sequence of spec/WuffsSyntax.tla.
 type tokLine struct {
 	O string   `json:"o"`
+	C string   `json:"c"` // context id (key of the contexts file); the source is prefix + T + suffix
 	T []string `json:"t"`
+}
+
+type tokContext struct {
+	Prefix []string `json:"prefix"`
+	Suffix []string `json:"suffix"`
 }
 
 type nestKind struct {
@@ -362,6 +368,7 @@ func cmdGen(args []string) error {
 	repo := fs.String("repo", "/repo", "repository (corpus of .wuffs files)")
 	tokPath := fs.String("tokens", "", "TLC-exported token sequences (ndjson of {o,t})")
 	nestPath := fs.String("nest", "", "NestOpen/NestClose of the spec (json)")
+	ctxPath := fs.String("contexts", "", "context prefixes/suffixes of the spec (json: id -> {prefix, suffix})")
 	out := fs.String("out", "", "sources.ndjson")
 	nRandom := fs.Int("random", 2000, "random byte strings")
 	nMutSmall := fs.Int("mut-small", 4000, "mutations of the small corpus programs (lang/check tests, std files < 4 KiB)")
@@ -383,6 +390,16 @@ func cmdGen(args []string) error {
 			return err
 		}
 	}
+	contexts := map[string]tokContext{}
+	if *ctxPath != "" {
+		b, err := os.ReadFile(*ctxPath)
+		if err != nil {
+			return err
+		}
+		if err := json.Unmarshal(b, &contexts); err != nil {
+			return err
+		}
+	}
 	of, err := os.Create(*out)
 	if err != nil {
 		return err
@@ -398,7 +415,7 @@ func cmdGen(args []string) error {
 		w.Write(b)
 		w.WriteByte('\n')
 		cls := origin
-		if i := strings.Index(cls, ":"); i >= 0 {
+		if i := strings.IndexAny(cls, ":/"); i >= 0 {
 			cls = cls[:i]
 		}
 		counts[cls]++
@@ -420,6 +437,15 @@ func cmdGen(args []string) error {
 					return fmt.Errorf("tokens: %v", err)
 				}
 				k++
+				if tl.C != "" {
+					cx, ok := contexts[tl.C]
+					if !ok {
+						return fmt.Errorf("tokens: unknown context %q", tl.C)
+					}
+					full := make([]string, 0, len(cx.Prefix)+len(tl.T)+len(cx.Suffix))
+					full = append(append(append(full, cx.Prefix...), tl.T...), cx.Suffix...)
+					tl.T = full
+				}
 				big := false
 				for _, tk := range tl.T {
 					if strings.HasPrefix(tk, "@open:") {
